@@ -780,7 +780,8 @@ var IdentPool = []string{"a", "b", "c", "foo", "Bar", "x1", "a_b", "a/b", "nota"
 	"anyone", "alloy", "asx", "emptyx", "matchesx", "containsx", "Z", "q_", "n0t", "i", "v", "k", "item", "port", "tags", "meta"}
 
 var PartPool = []string{"a", "b", "foo", "0", "1", "10", "007", "x y", "", "A", " a", "a.b", "a/b", "~", "~1", "é", "日本", "a-b", "k:v", "p|q", "_", "in",
-	"not", "9lives", "\"q\"", "back`tick", "tab\there", "nl\nx", "\\", "emoji😀", "\x00", "ünï", "a_b", "B4", "\ufffd", "a\ufffdb", "v1", "2024", "v½", "x²", "¾", "Ⅷ", "٣", "a٣"}
+	"not", "9lives", "\"q\"", "back`tick", "tab\there", "nl\nx", "\\", "emoji😀", "\x00", "ünï", "a_b", "B4", "\ufffd", "a\ufffdb", "v1", "2024", "v½", "x²", "¾", "Ⅷ", "٣", "a٣",
+	"9223372036854775807", "9223372036854775808", "18446744073709551615", "18446744073709551616", "99999999999999999999", "447911123456789012345", "00000000000000000000001", "4294967296"}
 
 var LitPool = []string{"", "1", "0", "-1", "1.5", "007", "abc", "true", "false", "foo.bar", "a.0", "x y", "/usr/bin", "/", "/a~1b", "//", "\"", "\\", "`", "\r", "a\r\nb",
 	"é", "日本語", "\x00", "\xff\xfe", "^a.*b$", "[0-9]+", "(", "not", "in", "-0", "1e3", "0x10", "1_000", "+1", "NaN", "a/b", "T", "emoji😀", "\t", " lead", "trail ", "%", "{}", "a==b", " "}
